@@ -20,7 +20,7 @@ use std::sync::{Arc, Mutex};
 pub fn def() -> PropDef {
     PropDef {
         id: "C16",
-        rule: "1 thread x every script of 3..4 steps (thorough 5); 2 threads x scripts of <=2 steps (thorough: 3 steps against <=2) and 3 threads x scripts of <=2 steps over {fail with one of nine messages through seven table entries (raw_name_from_str and rename fail in two ways each; set_raw_name, delete and set_name fail inside an iteration callback), succeed (add_to_answer; in the single-thread scripts also rename, delete and set_raw_name inside a callback, raw_name_from_str), read description through the thread's last CErr*, look again at the description text retrieved earlier}; every interleaving of the steps (step-level points, unbounded) and, with the library's yield points around the error store enabled, every interleaving with at most 2 preemptions; the same with every call handed a stale handle variable, and with all threads working on ONE packet handed from thread to thread; each execution runs on real OS threads under a baton scheduler and is compared with the per-thread expectation; a crowd of N in {1..600} threads failing and exiting while one thread keeps its description; distinct classes = (threads, script shapes, own or shared packet, whether a foreign failure lies between a failure and its read)",
+        rule: "1 thread x every script of 3..4 steps (thorough 5); 2 threads x scripts of <=2 steps (thorough: 3 steps against <=2) and 3 threads x scripts of <=2 steps over {fail with one of ten messages through seven table entries (two of them the same kind of error with different texts) (raw_name_from_str and rename fail in two ways each; set_raw_name, delete and set_name fail inside an iteration callback), succeed (add_to_answer; in the single-thread scripts also rename, delete and set_raw_name inside a callback, raw_name_from_str), read description through the thread's last CErr*, look again at the description text retrieved earlier}; every interleaving of the steps (step-level points, unbounded) and, with the library's yield points around the error store enabled, every interleaving with at most 2 preemptions; the same with every call handed a stale handle variable, and with all threads working on ONE packet handed from thread to thread; each execution runs on real OS threads under a baton scheduler and is compared with the per-thread expectation; a crowd of N in {1..600} threads failing and exiting while one thread keeps its description; distinct classes = (threads, script shapes, own or shared packet, whether a foreign failure lies between a failure and its read)",
         run,
         replay,
         bounds: |t| json!({"threads": [2, 3], "steps_2_threads": t.pick(2, 3), "steps_3_threads": 2, "preemption_bound_with_library_points": t.pick(2, 3), "max_executions_per_tuple": 20000}),
@@ -166,6 +166,11 @@ fn do_step(t: &FnTable, c: &mut ThreadCtx, s: Step) -> Result<String, String> {
                         err = cbs.err;
                         cbs.rc
                     }
+                    9 => {
+                        // a second failure of the same error kind as the second question, with another text
+                        let txt = CString::new(format!("t. 1 IN TXT \"{}\"", "z".repeat(4000))).unwrap();
+                        (t.add_to_answer)(&mut *c.pp, &mut err, txt.as_ptr())
+                    }
                     5 => {
                         let tgt = [1u8; 300];
                         let src = [1u8, b'z', 0];
@@ -267,17 +272,39 @@ fn do_step(t: &FnTable, c: &mut ThreadCtx, s: Step) -> Result<String, String> {
     }
 }
 
-/// the message each failing step produces, taken single-threaded (and equal to the native Display)
+/// The message each failing step must produce: the `Display` of the error the NATIVE operation returns for the
+/// same arguments (the C table is not involved, so nothing it may remember can leak into the oracle).
 fn expected_messages() -> Vec<String> {
-    let t = fn_table();
-    let mut own = Box::new(crate::subj::parse(&base_packet()).unwrap());
-    let mut c = ThreadCtx { stale: false, pp: &mut *own, _own: Some(own), last_err: std::ptr::null(), last_desc: std::ptr::null(), last_msg: None };
-    (0..9u8)
-        .map(|k| {
-            do_step(&t, &mut c, Step::Fail(k)).unwrap();
-            c.last_msg.clone().unwrap()
-        })
-        .collect()
+    let fresh = || crate::subj::parse(&base_packet()).unwrap();
+    let with_answer = || {
+        let mut p = fresh();
+        p.insert_rr_from_string(Section::Answer, "it. 1 IN A 9.9.9.8").unwrap();
+        p
+    };
+    fn e<E: std::fmt::Display>(r: Result<(), E>) -> String {
+        r.err().map(|e| e.to_string()).unwrap_or_else(|| "<no error>".to_string())
+    }
+    vec![
+        e(fresh().insert_rr_from_string(Section::Answer, "this is not a record")),
+        e(r#gen::RR::from_string("x. 1 IN A 1.2.3.4").and_then(|rr| fresh().insert_rr(Section::Question, rr))),
+        e(r#gen::raw_name_from_str(b"a..b", None).map(|_| ())),
+        e(fresh().rename_with_raw_names(&[1u8, b'z', 0], &[], false)),
+        e(r#gen::raw_name_from_str(&[b'x'; 70], None).map(|_| ())),
+        e(fresh().rename_with_raw_names(&[1u8; 300], &[1u8, b'z', 0], false)),
+        e({
+            let mut p = with_answer();
+            let mut it = p.into_iter_answer().unwrap();
+            it.set_raw_name(&[64u8, b'x', 0])
+        }),
+        e({
+            let mut p = with_answer();
+            let mut it = p.into_iter_answer().unwrap();
+            let _ = it.delete();
+            it.delete()
+        }),
+        e(r#gen::raw_name_from_str(b"\xe9t\xe9.example", None).map(|_| ())),
+        e(fresh().insert_rr_from_string(Section::Answer, &format!("t. 1 IN TXT \"{}\"", "z".repeat(4000)))),
+    ]
 }
 
 #[derive(Clone, Debug)]
@@ -373,7 +400,7 @@ fn scripts_upto(n: usize) -> Vec<Vec<Step>> {
 
 /// `all_entries`: successful calls through every kind of entry, not only add_to_answer
 fn scripts_over(n: usize, all_entries: bool) -> Vec<Vec<Step>> {
-    let mut alpha = vec![Step::Fail(0), Step::Fail(1), Step::Fail(2), Step::Fail(3), Step::Fail(4), Step::Fail(5), Step::Fail(6), Step::Fail(7), Step::Fail(8), Step::Succeed, Step::Read, Step::Peek];
+    let mut alpha = vec![Step::Fail(0), Step::Fail(1), Step::Fail(2), Step::Fail(3), Step::Fail(4), Step::Fail(5), Step::Fail(6), Step::Fail(7), Step::Fail(8), Step::Fail(9), Step::Succeed, Step::Read, Step::Peek];
     if all_entries {
         alpha.extend([Step::SucceedVia(0), Step::SucceedVia(1), Step::SucceedVia(2), Step::SucceedVia(3)]);
     }
@@ -481,7 +508,7 @@ fn explore_tuple_m(ctx: &mut Ctx, rep: &mut Report, scripts: &[Vec<Step>], libpo
 
 fn run(ctx: &mut Ctx, rep: &mut Report) {
     let exp = expected_messages();
-    if exp.iter().collect::<std::collections::BTreeSet<_>>().len() < 8 {
+    if exp.iter().collect::<std::collections::BTreeSet<_>>().len() < 9 || exp.iter().any(|m| m == "<no error>") {
         rep.vacuity.push(format!("the nine failing calls produce fewer than eight distinct messages: {:?}", exp));
     }
     let s2 = scripts_upto(2);
